@@ -68,7 +68,7 @@ void snoopy_message_generateFromFormat (
     char const * fmtPos_nextFormatTagClose;
     int   retVal;
 
-    dataSourceMsgBufSize = dataSourceMsgMaxLength+1;
+    dataSourceMsgBufSize = dataSourceMsgMaxLength;   // Every caller passes the buffer size (max length + 1) here
     dataSourceMsg = malloc(dataSourceMsgBufSize);
 
     fmtPos_cur           = logMessageFormat;
